@@ -131,34 +131,15 @@ Proof. repeat split; vm_compute; reflexivity. Qed.
 (* every printed row reaches its destination                                  *)
 
 (* "written by print in CSV/TSV output mode": whatever the destination of the print is - an
-   unbuffered writer, a *bufio.Writer, a file or command stream that embeds one, any stack of
-   buffered writers - after the end of the run the sink holds what it held (or had buffered)
-   before, followed by the text of every row printed to it, complete and in order.
-   [o_bufio] = the writer's dynamic type is *bufio.Writer (then it is one: a DBuf). *)
-Definition C08_output_full_statement : Prop :=
-  forall sep crlf o rows,
-    (o_bufio o = true -> exists size buf under, o_d o = DBuf size buf under /\ 16 <= size) ->
-    emit_rows sep crlf o rows = Ok (d_total (o_d o) ++ write_csv sep crlf rows).
-
-(* F-C08-5: a *bufio.Writer smaller than 4096 bytes is taken for "already buffered", but
-   csv.NewWriter wraps it in a private Writer that is never flushed: the row is lost *)
-Theorem C08_output_refuted : ~ C08_output_full_statement.
-Proof.
-  intros H. specialize (H 44 false (mkOut true (DBuf 16 [] (DRaw []))) [[[97]; [98]]]).
-  assert (X : emit_rows 44 false (mkOut true (DBuf 16 [] (DRaw []))) [[[97]; [98]]] =
-              Ok (d_total (DBuf 16 [] (DRaw [])) ++ write_csv 44 false [[[97]; [98]]])).
-  { apply H. intros _. exists 16, [], (DRaw []). split; [reflexivity | lia]. }
-  vm_compute in X. discriminate X.
-Qed.
-Print Assumptions C08_output_refuted.
-
-(* ... and holds for every other destination: not a *bufio.Writer (writeCSV then wraps it in
-   its scratch Writer and flushes that before returning), or one of at least 4096 bytes *)
-Theorem C08_output_partial : forall sep crlf o rows,
-  (o_bufio o = true -> exists size buf under, o_d o = DBuf size buf under /\ 4096 <= size) ->
-  emit_rows sep crlf o rows = Ok (d_total (o_d o) ++ write_csv sep crlf rows).
+   unbuffered writer, a *bufio.Writer of any size, a file or command stream that embeds one,
+   any stack of buffered writers - after the end of the run the sink holds what it held (or had
+   buffered) before, followed by the text of every row printed to it, complete and in order.
+   [o_bufio] = the writer's dynamic type is *bufio.Writer.  (F-C08-5, a *bufio.Writer smaller
+   than 4096 bytes losing every row, is repaired: no guard, no refutation any more.) *)
+Theorem C08_output : forall sep crlf o rows,
+  emit_rows sep crlf o rows = d_total (o_d o) ++ write_csv sep crlf rows.
 Proof. exact emit_rows_complete. Qed.
-Print Assumptions C08_output_partial.
+Print Assumptions C08_output.
 
 (* a stack of bufio.Writers loses and reorders nothing; closing delivers everything *)
 Theorem C08_buffered_writes_complete : forall d p,
@@ -170,11 +151,14 @@ Print Assumptions C08_buffered_writes_complete.
    standard output as a 64 KiB *bufio.Writer; a row larger than every buffer *)
 Example C08_ex_destinations :
   emit_rows 44 false (mkOut false (DBuf 65536 [] (DRaw [112; 10]))) [[[97]; [98]]; [[]]; [[99; 32; 100]]]
-    = Ok [112; 10; 97; 44; 98; 10; 34; 34; 10; 99; 32; 100; 10] /\
+    = [112; 10; 97; 44; 98; 10; 34; 34; 10; 99; 32; 100; 10] /\
   emit_rows 9 false (mkOut true (DBuf 65536 [] (DRaw []))) [[[97]; [98]]; [[]]]
-    = Ok [97; 9; 98; 10; 34; 34; 10] /\
+    = [97; 9; 98; 10; 34; 34; 10] /\
   emit_rows 44 false (mkOut false (DBuf 8 [] (DBuf 4 [] (DRaw [])))) [[repeat 120 20; [121]]; [[122]]]
-    = Ok (repeat 120 20 ++ [44; 121; 10; 122; 10]).
+    = repeat 120 20 ++ [44; 121; 10; 122; 10] /\
+  (* the former witness of F-C08-5: standard output as a 16-byte *bufio.Writer *)
+  emit_rows 44 false (mkOut true (DBuf 16 [] (DRaw []))) [[[97]; [98]]; [[]]]
+    = [97; 44; 98; 10; 34; 34; 10].
 Proof. vm_compute. repeat split; reflexivity. Qed.
 
 (* ------------------------------------------------------------------------- *)
